@@ -1,7 +1,7 @@
 (* C17 - Skeleton-blocker complexes track the complex through edits and contractions.
    Statements only; proofs in C17_Proofs.v, definitions in C17_Model.v.
    Faces are sub-lists (sub) of vertex lists; K : list Z -> bool is membership in the abstract complex. *)
-From Coq Require Import ZArith List Bool.
+From Coq Require Import ZArith List Bool Sorted.
 Require Import ReduceExec C17_Model C17_Proofs.
 Import ListNotations.
 Open Scope Z_scope.
@@ -75,6 +75,43 @@ Theorem C17_link_condition_spec : forall c a b, link_condition c a b = true <->
   forall s, In s (blk c) -> ~ (In a s /\ In b s).
 Proof. exact link_condition_spec. Qed.
 Print Assumptions C17_link_condition_spec.
+
+(* B5/B6. The transcribed remove_star(a,b) and remove_star(vertex) delete exactly the star - in every state in which no
+   blocker through the removed simplex has thr or more further dimensions (for the repaired threshold 3: no blocker with
+   at least three further vertices).  Together with the refutations R below this delimits the recorded defect exactly. *)
+Theorem C17_remove_star_edge_spec : forall thr (c : cplx) (a b : Z) (t : simplex), a <> b ->
+  no_big_blocker thr c [Z.min a b; Z.max a b] ->
+  contains (remove_star_edge thr c a b) t = contains c t && negb (ssub [Z.min a b; Z.max a b] t).
+Proof. exact remove_star_edge_spec. Qed.
+Print Assumptions C17_remove_star_edge_spec.
+Theorem C17_remove_star_vertex_spec : forall thr (c : cplx) (v : Z) (t : simplex), no_big_blocker thr c [v] ->
+  contains (remove_star_vertex thr c v) t = contains c t && negb (smem v t).
+Proof. exact remove_star_vertex_spec. Qed.
+Print Assumptions C17_remove_star_vertex_spec.
+Example C17_no_big_blocker_instance : no_big_blocker 3 hollow_triangle [0] /\ blk hollow_triangle = [[0; 1; 2]].
+Proof. exact no_big_blocker_instance. Qed.
+
+(* C. Edge contraction on the abstract complex (simplices as vertex sets): the image under b |-> a is closed under
+   non-empty subsets; freeing the simplices blocked only through ab first (contract_edge without the link condition)
+   gives the same image; the executable specification spec_contract lists exactly the images. *)
+Theorem C17_contract_image_closed : forall (K : list Z -> Prop) a b, set_closed K -> set_closed (image a b K).
+Proof. exact contract_image_closed. Qed.
+Print Assumptions C17_contract_image_closed.
+Theorem C17_contract_image_after_freeing : forall (K : list Z -> Prop) a b, a <> b ->
+  forall t, image a b (freed K a b) t <-> image a b K t.
+Proof. exact contract_image_after_freeing. Qed.
+Print Assumptions C17_contract_image_after_freeing.
+Theorem C17_spec_contract_is_image : forall k a b,
+  (forall t, In t (snd (spec_contract k a b)) -> image a b (fun u => In u (snd k)) t) /\
+  (forall u, In u (snd k) -> exists t, In t (snd (spec_contract k a b)) /\ same_set t (map (vm a b) u)).
+Proof. intros k a b. split; [exact (spec_contract_is_image k a b) | exact (spec_contract_covers_image k a b)]. Qed.
+Print Assumptions C17_spec_contract_is_image.
+
+(* D. On strictly increasing vertex lists the face relation of part A (sub-list) is the inclusion test of the transcription. *)
+Theorem C17_sorted_ssub_sub : forall t s, Sorted.StronglySorted Z.lt s -> Sorted.StronglySorted Z.lt t ->
+  (ssub s t = true <-> sub s t).
+Proof. exact sorted_ssub_sub. Qed.
+Print Assumptions C17_sorted_ssub_sub.
 
 (* R. The property fails for the transcription of remove_star(vertex) and remove_star(edge) (repaired threshold 3):
    boundary of the tetrahedron 0123, remove_star(0) deletes the triangle 123; boundary of the 4-simplex 01234,
